@@ -261,7 +261,7 @@ func runReplay(path string) int {
 		return 2
 	}
 	key := rf.Property + "/" + rf.Oracle + "/" + rf.Class
-	attempts := 1
+	attempts := 5
 	if strings.HasSuffix(rf.Class, "/control") || (rf.Scenario.Infl != nil && rf.Scenario.Infl.Race) {
 		// nondeterminism under identical schedules, or the race-detector leg: replays statistically
 		attempts = 20
